@@ -46,7 +46,7 @@ Cases(u) ==
 T1 == R(1)
 T2 == R(2)
 LevLo == Frac(1, 4)
-LevHi == Frac(3, 4)
+LevHi == Frac(9, 10)        \* (an asymmetric pair: formulas that assume lo = 1 - hi are told apart)
 EnsThresholds == <<Zero, Frac(1, 2), R(1), R(2), R(3)>>
 BrierNames == {"bs", "bsunc", "bsrel", "bsres", "bss", "bssrel", "bssres"}
 
